@@ -348,7 +348,8 @@ def run_hist(spec):
                 after = M.mps_to_dense(psi)
                 na = np.linalg.norm(after)
                 ov2 = abs(np.vdot(before, after)) ** 2 / (nb * na) ** 2
-                if err is not None and hasattr(err, 'ov') and method != 'variational':
+                # (`ov` is a first-order bound, prod (1 - 2 eps_i): only meaningful in the perturbative regime)
+                if err is not None and hasattr(err, 'ov') and method != 'variational' and err.eps <= 0.2:
                     require(ov2 >= err.ov - 1e-9, 'compress-error-bound', 'overlap^2 %r < reported lower bound %r (eps=%r)' % (ov2, err.ov, err.eps), method=method, **tags)
                     if max(M.schmidt_values(before / nb, list(before.shape), k).size for k in range(1, L)) <= chi_max and method != 'variational':
                         pass
@@ -377,7 +378,11 @@ def run_hist(spec):
                 require(not np.any(psi.get_total_charge(only_physical_legs=False)) or True, 'gauge', '', **tags)
             elif kind == 'copy':
                 cp = psi.copy()
-                cp.apply_local_op(0, sorted(n for n in cp.sites[0].opnames if not cp.sites[0].op_needs_JW(n))[0], unitary=False) if grouped is None else None
+                try:
+                    cp.apply_local_op(0, sorted(n for n in cp.sites[0].opnames if not cp.sites[0].op_needs_JW(n))[0], unitary=False) if grouped is None else None
+                except ValueError as e:
+                    if 'destroys state' not in str(e):  # documented error if the operator annihilates the state
+                        raise
                 cp.norm = 17.0
                 if grouped is None:
                     check(psi, ref, tags)
